@@ -290,25 +290,25 @@ PROPS = {
 }
 
 TECHNIQUE = {
-    "C01": "dispatch-table extraction from resolved HIR (5 composed tables vs a semantic operator spec), exhaustiveness of dispatch matches",
-    "C02": "priority-map extraction from HIR compared as an ordered partition against the operator table; associativity classes",
-    "C03": "resolved whole-workspace call graph (trait dispatch into both data impls) + MIR panic-site inventory (asserts, Index impls, unwrap/panic macros, std panickers) against a reviewed per-function allow-list; SCC check for recursion; structural termination arguments: visited-set validation walk in build(), iteration caps of the parser's parent-chain loops",
-    "C07": "same call-graph reachability + MIR panic-site inventory over the runtime entry set; SCC check with a depth-bound allow-list; classification of recursive cycles by a depth parameter (limit test + increasing argument at every recursive call)",
-    "C13": "path-partitioned abstract interpretation of the Lexer methods' MIR with a typestate on the error slot (assume-guarantee between methods); operator table extraction; must-pass-through check on the MIR CFG after every trie step (token type follows the reached node); abstract interpretation of the character consumer per (lexing state, character class) with push/pop/emit/reset and row/column event counters; origin analysis of column stores",
-    "C14": "origin (def-use) analysis over resolved HIR: byte-length sources vs character-count sinks; cast scan of the literal parsers; accumulator typestate over the literal parsers' MIR; lossy-encoding scan of the Hash impls inside the intern key; resolution of Into/From conversions on the literal path to their bodies and scan for narrowing IntToInt casts",
-    "C15": "origin analysis of heap index expressions (interprocedural through parameters and struct fields); sibling cross-check of the six block push functions and copy stanzas; who-may-write tables over resolved calls; lossy-encoding scan of the Hash impls inside the intern key; reachability search for returning paths of reallocate_heap that install extents for some blocks only",
-    "C16": "enumeration of locally constructed error values (resolved constructors) in the list lookup functions of both data impls against a reviewed table; control-context analysis of every absent-return inside a lookup loop; antisymmetry of match-based sort/search comparators; origin analysis of Extents::new end arguments (exclusive-end unit); key position and direction of match-based sort comparators",
-    "C11": "arm-table extraction of the (type,type) equality dispatch from resolved HIR: symmetry, role signatures of mirrored arms, accessor/type agreement, negation wiring; resolved-call scan for lossy iterator adaptors over borrowed operands that are consulted again; structural scan of concatenation flattening walks for visited sets",
-    "C19": "per-variant arm tables of the two compaction passes: binding-to-sink flow of reference fields compared with a reference-field spec; root trace/remap/write-back agreement; who-may-write table; must-analysis of heap slice bounds (both bounds, every definition, every call site rebased on StorageBlock.start)",
-    "C04": "per-Definition handler attribution table from resolved HIR; path-partitioned typestate (instruction pending / balanced) over the builder's MIR; visited-set validation walk in build() (structural check of the accepted link graph)",
-    "C05": "path-partitioned typestate over the builder's MIR; interprocedural origin (def-use) analysis of every instruction operand, jump-table entry and expression value through parameters, closures, struct fields and helper return values; who-may-forward analysis of the conditional-chain marker per dispatch arm",
-    "C20": "interprocedural origin analysis of every index the builder emits or reports; who-may-write table; must-pass-through check (MIR CFG) that every accumulation start resets its accumulator; variant-separation check of the hand-written Hash that keys the constant table",
-    "C06": "path-partitioned abstract interpretation of the instruction functions' MIR with stack-depth counters against a GarnishData contract model; bottom-up callee summaries; frame-cell codec tables of push_frame / pop_frame; per-variant rebuild check of the compaction copy pass",
-    "C08": "abstract interpretation with host-event traces and symbolic operands (defer_op once, argument order, operation id); per type-pair error-code propagation with type-fact refinement for UnsupportedOpTypes escape; flags-only abstract interpretation (unit pushed / host asked / value touched) for unit-without-offer",
+    "C01": "dispatch-table extraction from resolved HIR (5 composed tables vs a semantic operator spec), exhaustiveness of dispatch matches; abstract interpretation of the logic / ordering handlers per operand type (truth and comparison tables); per-method reachability of fallible integer primitives against an operation-family table; slot/constructor index agreement of build nodes",
+    "C02": "priority-map extraction from HIR compared as an ordered partition against the operator table; associativity classes; stack-discipline scan of the bracket stack; sibling agreement of the parser arms (shifted own id recorded after the shift; operator arms record the next parent)",
+    "C03": "resolved whole-workspace call graph (trait dispatch into both data impls) + MIR panic-site inventory (asserts, Index impls, unwrap/panic macros, std panickers) against a reviewed per-function allow-list; SCC check for recursion; structural termination arguments: visited-set validation walk in build(), iteration caps of the parser's parent-chain loops; one-bit abstract run of an iteration of the validating walk (no path that neither marks nor fails)",
+    "C07": "same call-graph reachability + MIR panic-site inventory over the runtime entry set; SCC check with a depth-bound allow-list; classification of recursive cycles by a depth parameter (limit test + increasing argument at every recursive call); forward MIR analysis of work-list drains; MIR classification of every store to a block cursor with dominator / must-pass-through checks of the capacity test and of the reallocation it guards",
+    "C13": "path-partitioned abstract interpretation of the Lexer methods' MIR with a typestate on the error slot (assume-guarantee between methods); operator table extraction; must-pass-through check on the MIR CFG after every trie step (token type follows the reached node); abstract interpretation of the character consumer per (lexing state, character class) with push/pop/emit/reset and row/column event counters; origin analysis of column stores; completeness of the per-token reset region (fields both set to a constant and changed)",
+    "C14": "origin (def-use) analysis over resolved HIR: byte-length sources vs character-count sinks; cast scan of the literal parsers; accumulator typestate over the literal parsers' MIR; lossy-encoding scan of the Hash impls inside the intern key; resolution of Into/From conversions on the literal path to their bodies and scan for narrowing IntToInt casts; one-bit abstract run of every character loop of the literal parsers (character accounting); end-cutting-only chain check of the text handed to parse_add_*; completeness of the lexer's per-token reset",
+    "C15": "origin analysis of heap index expressions (interprocedural through parameters and struct fields); sibling cross-check of the six block push functions and copy stanzas; who-may-write tables over resolved calls; lossy-encoding scan of the Hash impls inside the intern key; reachability search for returning paths of reallocate_heap that install extents for some blocks only; MIR classification of block-cursor stores (capacity test dominance); who-may-write and coherence check of the intern table; returned-address origin of the constant adders (interned vs appended)",
+    "C16": "enumeration of locally constructed error values (resolved constructors) in the list lookup functions of both data impls against a reviewed table; control-context analysis of every absent-return inside a lookup loop; antisymmetry of match-based sort/search comparators; origin analysis of Extents::new end arguments (exclusive-end unit); key position and direction of match-based sort comparators; treatment-set comparison of the two operands wherever a concatenation is destructured; region analysis between start_list and end_list over the resolved call graph (no callee that may start a list)",
+    "C11": "arm-table extraction of the (type,type) equality dispatch from resolved HIR: symmetry, role signatures of mirrored arms, accessor/type agreement, negation wiring; resolved-call scan for lossy iterator adaptors over borrowed operands that are consulted again; structural scan of concatenation flattening walks for visited sets; lossy-encoding scan of the Hash impls inside the intern key",
+    "C19": "per-variant arm tables of the two compaction passes: binding-to-sink flow of reference fields compared with a reference-field spec; root trace/remap/write-back agreement; who-may-write table; must-analysis of heap slice bounds (both bounds, every definition, every call site rebased on StorageBlock.start); state-dependence of conditions guarding the queueing of reference fields; one-bit abstract run of optimize (no return before a root is traced)",
+    "C04": "per-Definition handler attribution table from resolved HIR; path-partitioned typestate (instruction pending / balanced) over the builder's MIR; visited-set validation walk in build() (structural check of the accepted link graph); slot/constructor index agreement of build nodes; sibling agreement of parser arms on the recorded node id",
+    "C05": "path-partitioned typestate over the builder's MIR; interprocedural origin (def-use) analysis of every instruction operand, jump-table entry and expression value through parameters, closures, struct fields and helper return values; who-may-forward analysis of the conditional-chain marker per dispatch arm; must-control analysis of the end-instruction skip (tied to this root's start and to pending join-point entries); one-bit abstract run of the validating walk",
+    "C20": "interprocedural origin analysis of every index the builder emits or reports; who-may-write table; must-pass-through check (MIR CFG) that every accumulation start resets its accumulator; variant-separation check of the hand-written Hash that keys the constant table; who-may-write and coherence check of the intern table; returned-address origin analysis of BasicGarnishData's adders",
+    "C06": "path-partitioned abstract interpretation of the instruction functions' MIR with stack-depth counters against a GarnishData contract model; bottom-up callee summaries; frame-cell codec tables of push_frame / pop_frame; per-variant rebuild check of the compaction copy pass; forward MIR analysis of the work-list helpers (drain-to-mark); who-may-forward analysis of the conditional-chain marker; must-control analysis of the end-instruction skip",
+    "C08": "abstract interpretation with host-event traces and symbolic operands (defer_op once, argument order, operation id); per type-pair error-code propagation with type-fact refinement for UnsupportedOpTypes escape; flags-only abstract interpretation (unit pushed / host asked / value touched) for unit-without-offer; abstract interpretation of every deferring handler under each tuple of operand types (flags-only model) against a table of defined combinations; structural pass-through check of the data objects' callback methods; field-carry check of clone constructors",
     "C10": "abstract interpretation of the seven testing instructions under each of the 21 type facts (behavioural truth tables); builder out-of-line operand check on resolved HIR",
-    "C17": "abstract interpretation of resolve / apply with host-event traces (once, after input lookup, right symbol / external); operator wiring and attribution tables; field-carry table of functions that copy a SimpleGarnishData (every fn-pointer field taken from the source)",
-    "C09": "MIR scan of the number implementation: raw integer BinaryOp/overflow asserts, unchecked std integer calls, overflow-flag dataflow to a branch (followed into helpers), FloatToInt casts, dominator check of finiteness tests over Float constructions; lossy-encoding scan of the Hash impl that keys the number intern table",
-    "C12": "constant/predicate wiring check on the four comparison functions; comparable type-pair arm table; ordering-source check of SimpleNumber::partial_cmp; resolved-call scan for lossy iterator adaptors over borrowed operands that are consulted again; dominator check that list lengths are compared only after the element loop",
+    "C17": "abstract interpretation of resolve / apply with host-event traces (once, after input lookup, right symbol / external); operator wiring and attribution tables; field-carry table of functions that copy a SimpleGarnishData (every fn-pointer field taken from the source); structural pass-through check of the data objects' callback methods; end-cutting-only chain check of the identifier text handed to parse_add_symbol",
+    "C09": "MIR scan of the number implementation: raw integer BinaryOp/overflow asserts, unchecked std integer calls, overflow-flag dataflow to a branch (followed into helpers), FloatToInt casts, dominator check of finiteness tests over Float constructions; lossy-encoding scan of the Hash impl that keys the number intern table; per-method reachability of fallible integer primitives against an operation-family table; scan of integer comparisons for constants outside the operation's documented domain and for magnitude tests",
+    "C12": "constant/predicate wiring check on the four comparison functions; comparable type-pair arm table; ordering-source check of SimpleNumber::partial_cmp; resolved-call scan for lossy iterator adaptors over borrowed operands that are consulted again; dominator check that list lengths are compared only after the element loop; lossy-encoding scan of the Hash impls inside the intern key",
 }
 
 _PENDING = "rules for this property are not built yet in this framework (see DESIGN.md section 6 for the order); not claimed until they are"
